@@ -569,6 +569,66 @@ pub(super) fn normalize_integer_bounds(num: &NumberSchema) -> (Option<i64>, Opti
     (minimum, maximum)
 }
 
+/// `x` as `m / 10^s`, taken from its shortest decimal form; None if that does not fit.
+fn decimal_parts(x: f64) -> Option<(i128, u32)> {
+    if !x.is_finite() {
+        return None;
+    }
+    let txt = format!("{x}");
+    if txt.contains('e') || txt.contains('E') {
+        return None;
+    }
+    let (int_part, frac_part) = txt.split_once('.').unwrap_or((txt.as_str(), ""));
+    if int_part.len() + frac_part.len() > 30 {
+        return None;
+    }
+    let m: i128 = format!("{int_part}{frac_part}").parse().ok()?;
+    Some((m, frac_part.len() as u32))
+}
+
+/// Does the interval contain a multiple of `d` (an integer one if `integer`)?
+/// None if the bounds have no short decimal form.
+fn range_has_multiple(
+    min: f64,
+    exclusive_min: bool,
+    max: f64,
+    exclusive_max: bool,
+    d: &Decimal,
+    integer: bool,
+) -> Option<bool> {
+    let (a, sa) = decimal_parts(min)?;
+    let (b, sb) = decimal_parts(max)?;
+    let scale = sa.max(sb).max(d.exp);
+    if scale > 30 {
+        return None;
+    }
+    let p10 = |k: u32| 10i128.checked_pow(k);
+    let a = a.checked_mul(p10(scale - sa)?)?;
+    let b = b.checked_mul(p10(scale - sb)?)?;
+    let mut step = (d.coef as i128).checked_mul(p10(scale - d.exp)?)?;
+    if integer {
+        // multiples of `d` that are integers: multiples of lcm(step, 10^scale)
+        let one = p10(scale)?;
+        let (mut x, mut y) = (step, one);
+        while y != 0 {
+            (x, y) = (y, x % y);
+        }
+        step = (step / x).checked_mul(one)?;
+    }
+    let mut first = a.div_euclid(step).checked_mul(step)?;
+    if first < a {
+        first = first.checked_add(step)?;
+    }
+    if exclusive_min && first == a {
+        first = first.checked_add(step)?;
+    }
+    let mut last = b.div_euclid(step).checked_mul(step)?;
+    if exclusive_max && last == b {
+        last = last.checked_sub(step)?;
+    }
+    Some(first <= last)
+}
+
 pub fn check_number_bounds(num: &NumberSchema) -> Result<(), String> {
     let (minimum, exclusive_minimum) = num.get_minimum();
     let (maximum, exclusive_maximum) = num.get_maximum();
@@ -627,6 +687,29 @@ pub fn check_number_bounds(num: &NumberSchema) -> Result<(), String> {
         }
         // If interval is not unbounded in at least one direction, check if the range contains a multiple of multipleOf
         if let (Some(min), Some(max)) = (minimum, maximum) {
+            // exact decimal arithmetic when the bounds have a short decimal form (0.3 / 0.1 is
+            // 2.9999999999999996 in binary floating point)
+            if let Some(non_empty) = range_has_multiple(
+                min,
+                exclusive_minimum,
+                max,
+                exclusive_maximum,
+                d,
+                num.integer,
+            ) {
+                if non_empty {
+                    return Ok(());
+                }
+                return Err(format!(
+                    "range {}{}, {}{} does not contain {}multiple of {}",
+                    if exclusive_minimum { "(" } else { "[" },
+                    min,
+                    max,
+                    if exclusive_maximum { ")" } else { "]" },
+                    if num.integer { "an integer " } else { "a " },
+                    d.to_f64()
+                ));
+            }
             let step = d.to_f64();
             // Adjust the range depending on whether it's exclusive or not
             let min = {
